@@ -762,9 +762,18 @@ def x_binheader(repo):
     f, _ = _grab(src, se, r"\+\s*raw_text\s*\.\s*len\s*\(\s*\)\s*\+\s*" + EXPR + r"\s*;", "serialize: file_size = ... + 0x20")
     g, _ = _grab(src, se, r"\bSeekFrom::Start\s*\(\s*(0x[0-9A-Fa-f]+|[0-9]+)\s*\)", "serialize: seek(Start(0x20))")
     al, _ = _grab(src, se, r"\braw_cstrings\s*\.\s*len\s*\(\s*\)\s*%\s*" + EXPR + r"\s*!=\s*0", "serialize: raw_cstrings.len() % 4")
-    return [Table("BIN_HEADER", "Arc", LN, [a, b, c, d, e, pw, lw, hp, f, g, al], src.where(p),
+    # the 32-bit guard (fix 524d15f, F25): `if file_size > u32::MAX as usize { return Err(..) }` before bytes.resize
+    gm = src.finditer(r"\bif\s+file_size\s*>\s*" + EXPR + r"\s*\{\s*return\s+Err\b", se)
+    if len(gm) != 1:
+        src.fail("serialize: expected exactly one `if file_size > <limit> { return Err(..` guard, found %d" % len(gm))
+    lim = const_eval(re.sub(r"\bu32\s*::\s*MAX\b", str((1 << 32) - 1), gm[0].group(1)))
+    rz = src.finditer(r"\bbytes\s*\.\s*resize\s*\(", se)
+    if len(rz) != 1 or rz[0].start() < gm[0].start():
+        src.fail("serialize: the size guard must precede the single bytes.resize(..)")
+    return [Table("BIN_HEADER", "Arc", LN, [a, b, c, d, e, pw, lw, hp, f, g, al, lim], src.where(p),
                   "bin_archive from_bytes: the five uses of the header size, bytes per pointer entry, bytes per label entry, "
-                  "position of data_size; serialize: the two uses of the header size, c-string pool alignment")]
+                  "position of data_size; serialize: the two uses of the header size, c-string pool alignment, the largest "
+                  "file size the guard before bytes.resize accepts")]
 
 
 # ============================================================================ group Tex20: tpl.rs, bch.rs, cgfx.rs
